@@ -1589,3 +1589,9 @@ mod tests {
         assert_eq!(ids, vec![id3, id1, id3]);
     }
 }
+
+#[cfg(rustic_core_verif)]
+#[allow(missing_docs, unused_imports, dead_code, clippy::all, clippy::pedantic, clippy::nursery)]
+pub mod verif_hooks {
+    use super::*;
+}
